@@ -155,8 +155,49 @@ func readSummary(r *Result) string {
 }
 
 func judgeC18(c *Ctx, sc *Scenario) *Violation {
+	if sc.Real {
+		return c18RealOracle(sc, RunReal(c.B.BsmOff, sc, c.Work))
+	}
 	r := c.sim(c.B.BsmVerif, sc)
 	return c18Oracle(sc, r)
+}
+
+// c18RealOracle judges what the shipped tool leaves on a real directory (fault-free scenarios): exit 0, nothing
+// but README.md next to the list changed, and README.md as a whole file passes the reference reader (so bytes
+// of an older, longer README that survive behind the new text are seen).
+func c18RealOracle(sc *Scenario, rr *RealResult) *Violation {
+	if rr.Watchdog {
+		harnessFail("watchdog on the real-directory run")
+	}
+	dir, entries, listOK := c18Expected(sc)
+	if !listOK {
+		return nil
+	}
+	for _, e := range entries {
+		if _, ok := sc.Disk.Get(filepath.Join(dir, e.Name)); !ok {
+			return nil // not a fault-free scenario
+		}
+	}
+	if rr.Exit != 0 {
+		return &Violation{Class: "real-disk", Signature: "real-disk:exit", Detail: fmt.Sprintf("on a real directory the shipped tool exits %d although every file is readable: %s", rr.Exit, tail(rr.Stderr, 300))}
+	}
+	dest := filepath.Join(dir, "README.md")
+	for p := range rr.Changed {
+		if p != dest {
+			return &Violation{Class: "real-disk", Signature: "real-disk:fileset", Detail: "on a real directory the shipped tool changed " + p}
+		}
+	}
+	readme, ok := rr.Changed[dest]
+	if !ok {
+		readme, ok = sc.Disk.Get(dest) // unchanged: only fine if the old bytes already are the right README
+		if !ok {
+			return &Violation{Class: "real-disk", Signature: "real-disk:fileset", Detail: "on a real directory the shipped tool did not create " + dest}
+		}
+	}
+	if class, detail := c18Scan(readme, c18Header, entries); class != "" {
+		return &Violation{Class: "real-disk", Signature: "real-disk:" + class, Detail: "README.md left on a real directory by the shipped tool: " + detail}
+	}
+	return nil
 }
 
 func shrinkC18(c *Ctx, sc *Scenario, v *Violation, judge Judge) (*Scenario, *Violation) {
@@ -250,7 +291,11 @@ func c18Scenario(c *Ctx, r *common.Rng, run int) *Scenario {
 	}
 	sc.Disk.Put(list, []byte(sb.String()), "gen")
 	if r.Chance(1, 3) {
-		sc.Disk.Put(filepath.Join(dir, "README.md"), []byte("stale readme\n"), "stale")
+		stale := "stale readme\n"
+		if r.Chance(1, 2) { // longer than anything the tool will write: the old tail must not survive
+			stale = strings.Repeat("stale readme line, left over from an earlier and much longer list\n", 600)
+		}
+		sc.Disk.Put(filepath.Join(dir, "README.md"), []byte(stale), "stale")
 	}
 	arg := list
 	if dir != "." && r.Chance(1, 4) {
@@ -346,6 +391,20 @@ func checkC18(tier string) {
 		}
 		return outcome{sc, c18Oracle(sc, res)}
 	}, nil)
+
+	c.phase("shipped tool on real directories")
+	nReal := n / 40
+	outs3 := parallel(c, nReal, func(k int) outcome {
+		sc := bases[k*40].Clone()
+		sc.Real = true
+		sc.Note += " real-directory"
+		c.count("real_directory_runs", 1)
+		if _, stale := sc.Disk.Get(filepath.Join(filepath.Dir(filepath.Clean(sc.Argv[0])), "README.md")); stale {
+			c.count("real_directory_runs_with_stale_readme", 1)
+		}
+		return outcome{sc, judgeC18(c, sc)}
+	}, nil)
+	outs2 = append(outs2, outs3...)
 
 	c.phase("reporting")
 	violations := 0
